@@ -46,7 +46,7 @@ SPEC = {
         "epoch_changes": (20, 200), "priority_add:ok": (100, 1000), "offers_with_priority_tx": (200, 2000),
         "resets_inside_sessions": (200, 2000), "resets_outside_sessions": (500, 5000),
         "offers_with_pool_over_gas_cap": (2, 50), "gasprobe_in_ceremony": (40, 200), "gasprobe_big_priority_tx": (150, 750),
-        "offers_over_gas_cap_with_priority_tx": (300, 1500), "blocks_built_elsewhere": (300, 3000),
+        "offers_over_gas_cap_with_priority_tx": (300, 1500), "op:epochmix": (40, 200), "epochmix_with_next_epoch_txs_in_pool": (12, 60), "blocks_built_elsewhere": (300, 3000),
         "conflicting_tx_to_other_proposer": (100, 1000), "add_path:internal": (300, 3000), "add_path:batch": (300, 3000),
         # concurrent part (schedule dependent; far below what is normally observed)
         "race_detector_runs": (8, 12), "conc_runs": (12, 150), "interleaving_signatures": (50, 500),
